@@ -178,7 +178,7 @@ func DefaultKnobs() Knobs {
 		ValFee:    "0.01", StartPO: 1, StartWrk: 1, StartBeacon: 1, GovSecs: 20, Balance: "1000000000000000000"}
 }
 
-var allFlags = []string{"upcase", "group", "vesting", "extrafee", "nest", "overflow", "longdur", "huge", "denomchange", "minaccepts63", "addr255", "idwrap", "bigfee", "stakebond", "dupsigners", "granter", "rawbytes", "ibc"}
+var allFlags = []string{"upcase", "group", "vesting", "extrafee", "nest", "overflow", "longdur", "huge", "denomchange", "minaccepts63", "addr255", "idwrap", "bigfee", "stakebond", "dupsigners", "granter", "rawbytes", "ibc", "groupleave"}
 
 // flagRates: probability (percent) that a feature flag is on in a run, per property. Flags tied to
 // a known finding stay rare everywhere except in the property that owns the finding.
@@ -190,6 +190,9 @@ func flagRate(prop, flag string) int {
 	if flag == "rawbytes" {
 		// free-text fields (monikers, names, hashes) holding bytes that are not UTF-8
 		return map[string]int{"C15": 25, "C09": 20, "C07": 10, "C20": 10}[prop]
+	}
+	if flag == "groupleave" {
+		return map[string]int{"C14": 12}[prop]
 	}
 	if flag == "ibc" {
 		return map[string]int{"C01": 30}[prop]
@@ -541,7 +544,7 @@ func sortedU64[V any](m map[uint64]V) []uint64 {
 }
 
 func (g *Gen) category() string {
-	if g.Flags["group"] && g.pct(7) {
+	if g.Flags["group"] && g.pct(7) || g.Flags["groupleave"] && g.pct(8) {
 		return "grp"
 	}
 	if g.Flags["ibc"] && g.pct(10) {
@@ -1673,6 +1676,30 @@ func (g *Gen) genNoise(ntx int) NoiseSpec {
 // an outsider (the group module must refuse).
 func (g *Gen) groupTx(w *World) TxSpec {
 	gm := w.M.Grp
+	if g.Flags["groupleave"] {
+		// a member-run group with a percentage policy: created, a proposal put to the vote (not
+		// executed at once), and members leaving while it is open
+		switch {
+		case gm.N == 0 || g.pct(20):
+			a := g.actor()
+			w.Fault("group.create")
+			return TxSpec{Signer: a, Gas: ampleGas, Msgs: []MsgSpec{{T: "grp.create", A: a, N: 2}}}
+		case g.pct(55):
+			k := 1 + uint64(g.R.Intn(int(gm.N)))
+			admin := g.actorByAddr(w, gm.Admin[k])
+			var inner []MsgSpec
+			if g.pct(50) {
+				inner = []MsgSpec{{T: "bank.send", A: -(2000 + int(k)), B: admin, Amt: "1", Denom: Native}}
+			}
+			w.Fault("group.proposal_open")
+			return TxSpec{Signer: admin, Gas: ampleGas, Msgs: []MsgSpec{{T: "grp.submit", A: admin, Id: k, N: 0, Inner: inner}}}
+		default:
+			k := 1 + uint64(g.R.Intn(int(gm.N)))
+			admin := g.actorByAddr(w, gm.Admin[k])
+			w.Fault("group.member_leaves")
+			return TxSpec{Signer: admin, Gas: ampleGas, Msgs: []MsgSpec{{T: "grp.leave", A: admin, Id: k}}}
+		}
+	}
 	if gm.N == 0 || g.pct(15) && gm.N < 6 {
 		a := g.actor()
 		w.Fault("group.create")
